@@ -107,9 +107,31 @@ def lean_sources():
     return sorted(files)
 
 
-def forbidden_scan():
+def import_closure(roots):
+    """files of the project reachable from the given modules through `import OH.…` lines"""
+    seen, todo = set(), list(roots)
+    while todo:
+        m = todo.pop()
+        if m in seen:
+            continue
+        seen.add(m)
+        path = os.path.join(LEAN, *m.split(".")) + ".lean"
+        try:
+            src = open(path, encoding="utf-8").read()
+        except OSError:
+            continue
+        for im in re.findall(r"^import\s+(\S+)", src, re.M):
+            if im == "OH" or im.startswith("OH.") or im == "Main":
+                todo.append(im)
+    return sorted(os.path.join(LEAN, *m.split(".")) + ".lean" for m in seen)
+
+
+def forbidden_scan(mods=None):
+    """forbidden constructs in every source the property's theorems and the driver depend on (the
+    import closure of the Props modules and of Main.lean); without `mods`: every source"""
     hits = []
-    for f in lean_sources():
+    files = lean_sources() if mods is None else import_closure(list(mods) + ["Main"])
+    for f in files:
         try:
             src = strip_comments(open(f, encoding="utf-8").read())
         except OSError:
@@ -162,10 +184,10 @@ def proof_side(pid, thorough):
     for nm, ok, msg in tr:
         if not ok:
             out["broken"].append((f"translator:{nm}", msg.strip().split("\n")[-1][:300]))
-    hits = forbidden_scan()
+    mods_short = PROPS[pid].get("props_modules", [pid])
+    hits = forbidden_scan([f"OH.Props.{ms}" for ms in mods_short])
     for h in hits:
         out["broken"].append(("forbidden-construct", h))
-    mods_short = PROPS[pid].get("props_modules", [pid])
     names = []
     for ms in mods_short:
         names += theorems_of(ms)
